@@ -1,10 +1,15 @@
 import FgaVerif.Sexp
 import FgaVerif.Model.Validators
 import FgaVerif.Gen.Rules
+import FgaVerif.Engine.Sort
 import FgaVerif.Codec
 import FgaVerif.Model.Printer
 import FgaVerif.Model.Clean
 import FgaVerif.Model.Listener
+import FgaVerif.Model.ModFile
+import FgaVerif.Model.PGraph
+import FgaVerif.Model.WGraph
+import FgaVerif.Spec.Weights
 /-! Line-protocol driver: one S-expression operation per input line, one canonical result per
     output line. Runs the executable model definitions only (no proofs are imported). -/
 namespace FgaVerif.Driver
@@ -63,6 +68,134 @@ def opMerge (schema : String) (files : List Sexp) : String :=
     | .error e => e
     | .ok fs => toString (Codec.encMergeOutcome (Merge.merge fs schema))
 
+def hexOf (bs : List UInt8) : String :=
+  String.ofList (bs.flatMap fun x =>
+    let d (n : Nat) : Char := if n < 10 then Char.ofNat (48 + n) else Char.ofNat (87 + n)
+    [d (x.toNat / 16), d (x.toNat % 16)])
+
+def opModPath (entry : String) : String :=
+  match ModFile.checkEntry (ModFile.bytesOf entry) with
+  | .ok v => s!"(ok {hexOf v})"
+  | .decodeErr => "decode-err"
+  | .invalid => "invalid"
+  | .badExt => "bad-ext"
+
+partial def decNode : Sexp → Option ModFile.Node
+  | .atom "zero" => some { zero := true, tag := "", value := "", line := 0, col := 0, content := [] }
+  | .list [.atom "node", .str tag, .str value, l, c, .list cs] => do
+      let cs' ← cs.mapM decNode
+      pure { zero := false, tag := tag, value := value, line := (← Codec.nat? l), col := (← Codec.nat? c), content := cs' }
+  | _ => none
+
+def opModFile (s c : Sexp) : String :=
+  match decNode s, decNode c with
+  | some sn, some cn =>
+    match ModFile.transform sn cn with
+    | .ok o =>
+      let items := String.join (o.contents.map fun p => s!" ({hexOf p.value} {p.line} {p.col})")
+      s!"(ok (schema {hexOf o.schema.value} {o.schema.line} {o.schema.col}) (contents {o.contentsLine} {o.contentsCol}{items}))"
+    | .error es =>
+      "(errors " ++ " ".intercalate (es.map fun e => s!"({e.line} {e.col} {Sexp.quote e.msg} {Sexp.quote e.echo})") ++ ")"
+  | _, _ => "bad-op"
+
+def ntypeS : PGraph.NodeType → String
+  | .specificType => "0" | .typeAndRelation => "1" | .operator => "2" | .wildcard => "3"
+def etypeS : PGraph.EdgeType → String
+  | .direct => "0" | .rewrite => "1" | .ttu => "2" | .computed => "3"
+
+def pgraphS (g : PGraph.G) : String :=
+  let ns := String.join (g.nodes.map fun n => s!" ({n.id} {Sexp.quote n.label} {ntypeS n.ntype})")
+  let ls := String.join ((PGraph.dotLines g).map fun l => s!" ({l.src} {l.dst} {l.id} {etypeS l.etype} {Sexp.quote l.tupleset})")
+  s!"(g {boolS g.listObjects} (nodes{ns}) (lines{ls}))"
+
+def opPGraph (m : Sexp) (rev : Nat) : String :=
+  match Codec.decModel m with
+  | none => "bad-op"
+  | some mdl =>
+    let g := PGraph.build mdl
+    let g := if rev ≥ 1 then PGraph.reversed g else g
+    let g := if rev ≥ 2 then PGraph.reversed g else g
+    pgraphS g
+
+/-- reachability matrix over the non-operator nodes in id order -/
+def opPPaths (m : Sexp) : String :=
+  match Codec.decModel m with
+  | none => "bad-op"
+  | some mdl =>
+    let g := PGraph.build mdl
+    let ns := g.nodes.filter (fun n => n.ntype != .operator)
+    ";".intercalate (ns.map fun a => String.ofList (ns.map fun b => if PGraph.pathExistsIds g a.id b.id then '1' else '0'))
+
+def opPCycles (m : Sexp) : String :=
+  match Codec.decModel m with
+  | none => "bad-op"
+  | some mdl =>
+    match PGraph.cycleFlags (PGraph.build mdl) with
+    | none => "unmodelled"
+    | some (c, r) => s!"(flags {boolS c} {boolS r})"
+
+/-! weighted graph: structure dump with canonical operator names `T#r@k` -/
+partial def nameOps (g : WGraph.G) (rel : String) (cur : String) (acc : List (String × String)) (k : Nat) :
+    List (String × String) × Nat :=
+  (WGraph.edgesOf g cur).foldl (fun (acc, k) e =>
+    match g.node? e.dst with
+    | some n =>
+      if n.ntype == .operator && !(acc.any (·.1 == n.uniqueLabel)) then
+        nameOps g rel n.uniqueLabel (acc ++ [(n.uniqueLabel, rel ++ "@" ++ toString k)]) (k + 1)
+      else (acc, k)
+    | none => (acc, k)) (acc, k)
+
+def opNames (g : WGraph.G) : List (String × String) :=
+  (g.nodes.filter (·.ntype == .typeAndRelation)).foldl (fun acc n => (nameOps g n.uniqueLabel n.uniqueLabel acc 0).1) []
+
+def wNtypeS : WGraph.NodeType → String
+  | .specificType => "0" | .typeAndRelation => "1" | .operator => "2" | .wildcard => "3"
+def wEtypeS : WGraph.EdgeType → String
+  | .direct => "0" | .rewrite => "1" | .ttu => "2" | .computed => "3"
+
+def opWStruct (m : Sexp) : String :=
+  match Codec.decModel m with
+  | none => "bad-op"
+  | some mdl =>
+    match WGraph.build mdl with
+    | .error (.invalidTupleset ts) => s!"(err invalid-tupleset {Sexp.quote ts})"
+    | .error (.noTypeLink ts cu) => s!"(err no-type-link {Sexp.quote ts} {Sexp.quote cu})"
+    | .error (.missingRelation t cu) => s!"(err missing-relation {Sexp.quote t} {Sexp.quote cu})"
+    | .ok g =>
+      let names := opNames g
+      let nm (ul : String) : String := ((names.find? (·.1 == ul)).map (·.2)).getD ul
+      let nodes := insertionSort (fun (a b : String × WGraph.WNode) => a.1 ≤ b.1) (g.nodes.map fun n => (nm n.uniqueLabel, n))
+      let ns := String.join (nodes.map fun (c, n) => s!" ({Sexp.quote c} {Sexp.quote n.label} {wNtypeS n.ntype})")
+      let es := String.join (nodes.map fun (c, n) =>
+        let out := WGraph.edgesOf g n.uniqueLabel
+        if out.isEmpty then "" else
+          " (" ++ Sexp.quote c ++ String.join (out.map fun e =>
+            s!" ({Sexp.quote (nm e.dst)} {wEtypeS e.etype} {Sexp.quote e.tupleset} ({" ".intercalate (e.conditions.map Sexp.quote)}))") ++ ")")
+      s!"(wg (nodes{ns}) (edges{es}))"
+
+def wmapS (w : Spec.Weights.WMap) : String :=
+  "(" ++ " ".intercalate (w.map fun (k, v) => s!"({Sexp.quote k} {v})") ++ ")"
+
+def opWSpec (m : Sexp) (grouped : Bool) : String :=
+  match Codec.decModel m with
+  | none => "bad-op"
+  | some mdl =>
+    match WGraph.build mdl with
+    | .error _ => "(reject builder)"
+    | .ok _ =>
+      let g := Spec.Weights.sgraph grouped mdl
+      let rs := Spec.Weights.rejects g
+      if !rs.isEmpty then
+        let kinds := (rs.map fun r => match r with
+          | .rewriteCycle _ => "rewrite-cycle" | .operatorOnCycle _ => "operator-on-cycle" | .noTerminal _ => "no-terminal").eraseDups
+        s!"(reject {" ".intercalate kinds})"
+      else
+        let st := Spec.Weights.weights g
+        let vis := g.filter (fun n => n.kind != .group)
+        let vis := insertionSort (fun (a b : Spec.Weights.Node) => a.name ≤ b.name) vis
+        "(ok" ++ String.join (vis.map fun n =>
+          s!" ({Sexp.quote n.name} {wmapS (Spec.Weights.stateGet st n.name)} ({" ".intercalate ((Spec.Weights.wildTargets g n.name).map Sexp.quote)}))") ++ ")"
+
 def step (line : String) : String :=
   match Sexp.parse line with
   | none => "bad-op"
@@ -71,6 +204,16 @@ def step (line : String) : String :=
   | some (.list [.atom "model2dsl", m, .atom "false"]) => opModel2Dsl m false
   | some (.list [.atom "dsl2model", .str text, .str cleaned, tree, errs]) => opDsl2Model text cleaned tree errs
   | some (.list [.atom "merge", .str schema, .list files]) => opMerge schema files
+  | some (.list [.atom "pgraph", m]) => opPGraph m 0
+  | some (.list [.atom "pgraph-rev", m]) => opPGraph m 1
+  | some (.list [.atom "pgraph-rev2", m]) => opPGraph m 2
+  | some (.list [.atom "ppaths", m]) => opPPaths m
+  | some (.list [.atom "pcycles", m]) => opPCycles m
+  | some (.list [.atom "wstruct", m]) => opWStruct m
+  | some (.list [.atom "wspec", m]) => opWSpec m true
+  | some (.list [.atom "wspec-edges", m]) => opWSpec m false
+  | some (.list [.atom "modpath", .str e]) => opModPath e
+  | some (.list [.atom "modfile", sn, cn]) => opModFile sn cn
   | some (.list [.atom "clean", .str text]) => s!"(ok {Sexp.quote (String.ofList (Clean.clean text.toList))})"
   | some _ => "bad-op"
 
